@@ -25,7 +25,7 @@ if [ "$TIER" = thorough ] && command -v go1.26.8 >/dev/null 2>&1; then
 fi
 mkdir -p $VERIF_ROOT/replay/$ID
 export VERIF_HR=$B/hr VERIF_HR_ALT=$ALT VERIF_WORK=$W VERIF_TIER=$TIER VERIF_SEED=${VERIF_SEED:-1}
-export GORACE="halt_on_error=0 log_path=$W/race"
+export GORACE="halt_on_error=0 exitcode=0 log_path=$W/race"
 cd /verif
 $B/vcheck run $ID --tier $TIER
 rc=$?
